@@ -337,7 +337,7 @@ func c03keyTypes(c *core.Ctx) {
 
 func C03(c *core.Ctx) {
 	c03keyTypes(c)
-	c.Rule = "generated schemas (leaves with/without defaults, containers, lists with 1–2 keys, depth ≤3) × pairs (source, target) of conforming trees with controlled key overlap × strategy × entry point (root, container, list entry) × source implementation (reference store, JSON reader, XML reader with list entries contiguous and interleaved with their siblings, reflection over maps, nodeutil.Node) × target implementation (reference store, reflection over maps, nodeutil.Node); result tree and error class compared with the Lean editor model and the merge specification. non-trivial = both trees non-empty; distinct by (schema, source, target, strategy, entry, implementations)"
+	c.Rule = "generated schemas (leaves with/without defaults, containers, lists with 1–2 keys, depth ≤3) × pairs (source, target) of conforming trees with controlled key overlap × strategy × entry point (root, container, list entry) × source implementation (reference store, JSON reader, XML reader with list entries contiguous and interleaved with their siblings, reflection over maps, nodeutil.Node) × target implementation (reference store, reflection over maps, nodeutil.Node); result tree and error class compared with the Lean editor model and the merge specification; directed: lists keyed by each of 16 types created by the library inside an empty Go map (both reflection backends): read back, found by key, updated in place. non-trivial = both trees non-empty; distinct by (schema, source, target, strategy, entry, implementations)"
 	c.Assumptions = append(c.Assumptions,
 		"the reference store (harness/refstore) implements the store contract of the model: child/list exists iff it holds data, Next{New} appends, lookups by key text",
 		"targets that keep a list in a Go map are compared with entry order ignored (the contract 'otherwise appended' is about ordered stores)")
